@@ -305,6 +305,14 @@ func cmdCheck(args []string) {
 	}
 	// thorough extras
 	extra := map[string]interface{}{}
+	if !thorough {
+		// findings of the bounded stand-ins are exercised in the thorough tier only; they are listed all the same
+		for _, k := range known {
+			if k.Property == *prop && k.Status == "known" && strings.HasPrefix(k.Obligation, "bounded/") {
+				fmt.Printf("KNOWN-FINDING: property=%s %s: %s [bounded stand-in, run in the thorough tier]\n", *prop, k.Obligation, k.What)
+			}
+		}
+	}
 	if thorough {
 		st := runSelftest(*verif, *repo, *prop, 10)
 		extra["selftest"] = st
